@@ -119,7 +119,8 @@ def run(model: RepoModel, rep, tier: str):
                               any(k.arg == "call_stmt_id" and "call_stmt_id" in norm(k.value) for k in c.keywords) and
                               any(k.arg == "caller_id" and "caller_id" in norm(k.value) for k in c.keywords) for c in frames)
     pushed = any(isinstance(n, ast.Call) and isinstance(n.func, ast.Attribute) and n.func.attr in ("add", "push") and "frame_stack" in norm(n.func.value)
-                 and n.args and isinstance(n.args[0], ast.Name) for n in walk_no_nested(afs.node))
+                 and n.args and (isinstance(n.args[0], ast.Name) or (isinstance(n.args[0], ast.Call) and (call_name(n.args[0]) or "").endswith("ComputeFrame")))
+                 for n in walk_no_nested(afs.node))
     if src_ok and frame_ok and pushed:
         rep.holds("C07.R2", key, GS, afs.node.lineno, "CallSite(data.caller_id, data.call_stmt_id, callee_id) per callee id; ComputeFrame(method_id=key.callee_id, ...) pushed")
     else:
